@@ -17,7 +17,7 @@ SEQ = ("vec", "array", "slice")
 
 
 def is_seq(v):
-    return isinstance(v, Agg) and v.kind in SEQ
+    return isinstance(v, Agg) and v.kind in SEQ + ("btreeset",)
 
 
 def mk_iter(source, pos, mode, extra=()):
@@ -56,6 +56,11 @@ def iter_next(I, st, caller, it):
             ref = Ref(fr, 0, ())
             nit = mk_iter(ref, pos + 1, mode, extra)
         return [(st, nit, Ref(ref.frame, ref.local, tuple(ref.projs) + (("constindex", pos, 0),)))]
+    if mode == "map_deref":
+        res = []
+        for s2, inner2, item in iter_next(I, st, caller, src):
+            res.append((s2, mk_iter(inner2, pos, mode, extra), item if item is None or isinstance(item, Outcome) else deref_all(I, s2, item)))
+        return res
     if mode == "enumerate":
         res = []
         for s2, inner2, item in iter_next(I, st, caller, src):
@@ -230,6 +235,44 @@ def container_models(I, st, caller, func, args, argtys, dest_ty):
                             outs.append(Outcome("return", EnumV("Result", 1, {1: items[i].payloads.get(1, (Opaque("error"),))}), s4))
             elif target.startswith("HashSet<"):
                 outs.append(Outcome("return", Agg("hashset", None, tuple(deref_all(I, s2, x) for x in items)), s2))
+            elif target.startswith(("Result<BTreeSet<", "BTreeSet<")):
+                wrapped = target.startswith("Result<")
+                from . import parser as P
+                inner_t = target[len("Result<"):] if wrapped else target
+                ety = P.split_top(inner_t[inner_t.index("<") + 1:], ",")[0].rstrip(">") if False else inner_t[inner_t.index("<") + 1:].split(">")[0]
+                work = [(s2, 0, ())]
+                while work:
+                    s3, i, cur = work.pop()
+                    if i == len(items):
+                        setv = Agg("btreeset", None, cur)
+                        outs.append(Outcome("return", EnumV("Result", 0, {0: (setv,)}) if wrapped else setv, s3))
+                        continue
+                    itv = items[i]
+                    cases = [(s3, itv)]
+                    if wrapped:
+                        cases = []
+                        for c, idx in split_enum(I, s3, itv, "collect Result<BTreeSet>"):
+                            s4 = s3.fork()
+                            s4.assume(c)
+                            if idx == 0:
+                                cases.append((s4, itv.payloads[0][0]))
+                            else:
+                                outs.append(Outcome("return", EnumV("Result", 1, {1: itv.payloads.get(1, (Opaque("error"),))}), s4))
+                    for s4, x in cases:
+                        # sorted insertion with the element's own Ord::cmp
+                        w2 = [(s4, 0)]
+                        while w2:
+                            s5, j = w2.pop()
+                            if j == len(cur):
+                                work.append((s5, i + 1, cur + (x,)))
+                                continue
+                            for s6, o in elem_cmp(I, s5, caller, ety, x, cur[j]):
+                                if o == -1:
+                                    work.append((s6, i + 1, cur[:j] + (x,) + cur[j:]))
+                                elif o == 0:
+                                    work.append((s6, i + 1, cur))
+                                else:
+                                    w2.append((s6, j + 1))
             elif target.startswith(("BTreeMap<", "HashMap<")):
                 # insert the (key, value) pairs one by one: a later equal key replaces the earlier value
                 from . import parser as P
@@ -503,4 +546,162 @@ def map_models(I, st, caller, func, args, argtys, dest_ty):
         b, _ = seq_of(I, st, args[1])
         r = z3.And([x == y for x, y in zip(a.fields, b.fields)]) if len(a.fields) == len(b.fields) and a.fields else z3.BoolVal(len(a.fields) == len(b.fields))
         return ret(st, r if m.group(2) == "eq" else z3.Not(r))
+    return None
+
+
+# ---------------------------------------------------------------------------------------------------------------------
+# BTreeSet<T> with symbolic elements: kept sorted by the element type's *own* Ord::cmp body from the dump.
+def elem_cmp(I, st, caller, ty, a, b):
+    """[(state, ordering int -1/0/1)]: forks over the result of <T as Ord>::cmp(a, b)"""
+    ty = ty.strip().lstrip("&")
+    I.frame_counter += 1
+    fr = I.frame_counter
+    st.mem[(fr, 0)] = deref_all(I, st, a)
+    st.mem[(fr, 1)] = deref_all(I, st, b)
+    res = []
+    for o in I.dispatch_call(st, caller, "<%s as Ord>::cmp" % ty, [Ref(fr, 0, ()), Ref(fr, 1, ())], ["&" + ty, "&" + ty], "Ordering"):
+        if o.kind != "return":
+            raise Unencodable("Ord::cmp of a set element did not return")
+        for c, idx in split_enum(I, o.state, o.value, "Ord::cmp"):
+            s2 = o.state.fork()
+            s2.assume(c)
+            res.append((s2, idx))
+    return res
+
+
+def btreeset_models(I, st, caller, func, args, argtys, dest_ty):
+    f = strip_std_paths(func)
+    m = re.match(r"^BTreeSet::<(.*)>::(\w+)(::<.*>)?$", f)
+    if m:
+        ty, op = m.group(1), m.group(2)
+        if op == "new":
+            return ret(st, Agg("btreeset", None, ()))
+        if op == "insert":
+            cur = I.load(st, args[0])
+            x = args[1]
+            outs = []
+            work = [(st.fork(), 0)]
+            while work:
+                s, i = work.pop()
+                if i == len(cur.fields):
+                    I.store(s, args[0], Agg("btreeset", None, tuple(cur.fields) + (x,)))
+                    outs.append(Outcome("return", z3.BoolVal(True), s))
+                    continue
+                for s2, o in elem_cmp(I, s, caller, ty, x, cur.fields[i]):
+                    if o == -1:
+                        I.store(s2, args[0], Agg("btreeset", None, tuple(cur.fields[:i]) + (x,) + tuple(cur.fields[i:])))
+                        outs.append(Outcome("return", z3.BoolVal(True), s2))
+                    elif o == 0:
+                        outs.append(Outcome("return", z3.BoolVal(False), s2))
+                    else:
+                        work.append((s2, i + 1))
+            return outs
+        if op in ("len", "is_empty"):
+            v = deref_all(I, st, args[0])
+            return ret(st, z3.IntVal(len(v.fields)) if op == "len" else z3.BoolVal(len(v.fields) == 0))
+        if op == "iter":
+            return ret(st, mk_iter(args[0], 0, "ref"))
+        if op == "contains":
+            v = deref_all(I, st, args[0])
+            outs = []
+            work = [(st.fork(), 0)]
+            while work:
+                s, i = work.pop()
+                if i == len(v.fields):
+                    outs.append(Outcome("return", z3.BoolVal(False), s))
+                    continue
+                for s2, o in elem_cmp(I, s, caller, ty, args[1], v.fields[i]):
+                    if o == 0:
+                        outs.append(Outcome("return", z3.BoolVal(True), s2))
+                    else:
+                        work.append((s2, i + 1))
+            return outs
+    if re.match(r"^<BTreeSet<.*> as Default>::default$", f):
+        return ret(st, Agg("btreeset", None, ()))
+    if re.match(r"^<HashSet<.*> as Default>::default$", f):
+        return ret(st, Agg("hashset", None, ()))
+    if re.match(r"^<&?BTreeSet<.*> as IntoIterator>::into_iter$", f):
+        return ret(st, mk_iter(args[0], 0, "ref" if isinstance(args[0], Ref) else "own"))
+    # iterator consumers used with sets
+    m = re.match(r"^<(.*) as Iterator>::try_fold::<", f)
+    if m and isinstance(args[0] if not isinstance(args[0], Ref) else I.load(st, args[0]), Agg):
+        it = I.load(st, args[0]) if isinstance(args[0], Ref) else args[0]
+        ga = generic_args(f)
+        clos_ty = next((g for g in ga if "closure@" in g), None)
+        outs = []
+        for s2, items in drain(I, st.fork(), caller, it):
+            work = [(s2, 0, args[1])]
+            while work:
+                s3, i, acc = work.pop()
+                if i == len(items):
+                    outs.append(Outcome("return", EnumV("Result", 0, {0: (acc,)}), s3))
+                    continue
+                for o in call_closure(I, s3, caller, clos_ty, args[2], [acc, items[i]]):
+                    if o.kind != "return":
+                        outs.append(o)
+                        continue
+                    for c, idx in split_enum(I, o.state, o.value, "try_fold step"):
+                        s4 = o.state.fork()
+                        s4.assume(c)
+                        if norm_type(o.value.name) == "Option":
+                            good = idx == 1
+                        else:
+                            good = idx == 0
+                        if good:
+                            work.append((s4, i + 1, o.value.payloads[idx][0]))
+                        else:
+                            outs.append(Outcome("return", o.value, s4))
+        return outs
+    m = re.match(r"^<(.*) as Iterator>::(position|nth|cloned|copied|count)(::<.*>)?$", f)
+    if m:
+        it = I.load(st, args[0]) if isinstance(args[0], Ref) else args[0]
+        if isinstance(it, Agg) and it.kind == "iter":
+            op = m.group(2)
+            if op in ("cloned", "copied"):
+                return ret(st, mk_iter(it, 0, "map_deref"))
+            outs = []
+            for s2, items in drain(I, st.fork(), caller, it):
+                if op == "count":
+                    outs.append(Outcome("return", z3.IntVal(len(items)), s2))
+                elif op == "nth":
+                    n = z3.simplify(args[1])
+                    if z3.is_int_value(n):
+                        k = n.as_long()
+                        outs.append(Outcome("return", mk_option(k < len(items), items[k] if k < len(items) else None), s2))
+                    else:
+                        for k in range(len(items) + 1):
+                            c = (args[1] == k) if k < len(items) else (args[1] >= len(items))
+                            if I.feasible(s2, c):
+                                s3 = s2.fork()
+                                s3.assume(c)
+                                outs.append(Outcome("return", mk_option(k < len(items), items[k] if k < len(items) else None), s3))
+                else:
+                    ga = generic_args(f)
+                    clos_ty = next((g for g in ga if "closure@" in g), None)
+                    work = [(s2, 0)]
+                    while work:
+                        s3, i = work.pop()
+                        if i == len(items):
+                            outs.append(Outcome("return", mk_option(False), s3))
+                            continue
+                        for o in call_closure(I, s3, caller, clos_ty, args[1], [items[i]]):
+                            if o.kind != "return":
+                                outs.append(o)
+                                continue
+                            for cond, hit in ((o.value, True), (z3.Not(o.value), False)):
+                                cs = z3.simplify(cond)
+                                if I.feasible(o.state, cs):
+                                    s4 = o.state.fork()
+                                    s4.assume(cs)
+                                    if hit:
+                                        outs.append(Outcome("return", mk_option(True, z3.IntVal(i)), s4))
+                                    else:
+                                        work.append((s4, i + 1))
+            return outs
+    m = re.match(r"^Option::<&.*>::(cloned|copied)$", f)
+    if m:
+        v = deref_all(I, st, args[0])
+        if isinstance(v, EnumV):
+            pl = {k_: tuple(deref_all(I, st, x) for x in p_) for k_, p_ in v.payloads.items()}
+            return ret(st, EnumV(v.name, v.discr, pl))
     return None
